@@ -1,0 +1,42 @@
+//go:build verif
+
+package sstables
+
+import (
+	"github.com/thomasjungblut/go-sstables/recordio"
+	rProto "github.com/thomasjungblut/go-sstables/recordio/proto"
+)
+
+// VerifWrapWriters lets a verification harness wrap the data and index writers of an opened
+// stream writer, e.g. with failing ones (verification hook, build tag verif only).
+func VerifWrapWriters(w *SSTableStreamWriter,
+	wrapData func(recordio.WriterI) recordio.WriterI,
+	wrapIndex func(rProto.WriterI) rProto.WriterI) {
+	if wrapData != nil {
+		w.dataWriter = wrapData(w.dataWriter)
+	}
+	if wrapIndex != nil {
+		w.indexWriter = wrapIndex(w.indexWriter)
+	}
+}
+
+// VerifDiskIndexSetSeekLen sets the scan window of the mmap reader underneath a disk key index.
+func VerifDiskIndexSetSeekLen(idx SortedKeyIndex, n int) bool {
+	d, ok := idx.(*DiskKeyIndex)
+	if !ok {
+		return false
+	}
+	p, ok := d.reader.(*rProto.MMapProtoReader)
+	if !ok {
+		return false
+	}
+	return recordio.VerifSetSeekLen(p.ReadAtI, n)
+}
+
+// VerifReaderIndex exposes the index of a table reader.
+func VerifReaderIndex(r SSTableReaderI) SortedKeyIndex {
+	if x, ok := r.(*SSTableReader); ok {
+		return x.index
+	}
+	return nil
+}
